@@ -37,6 +37,9 @@ TRANSPARENT = (
     'core::slice::as_ptr', 'core::clone::impls::clone', 'core::hint::must_use',
     'core::iter::range::next',
     'core::slice::iter::into_iter', 'core::future::future::Future::poll',
+    # error_printer: log-and-return-self adaptors
+    'error_printer::ErrorPrinter::debug_error', 'error_printer::ErrorPrinter::info_error', 'error_printer::ErrorPrinter::warn_error',
+    'error_printer::ErrorPrinter::log_error',
 )
 
 
